@@ -14,9 +14,14 @@ REGISTRY = {
     "C04": "c04",
     "C05": "c05",
     "C06": "c06",
+    "C07": "c07",
+    "C08": "c08",
+    "C09": "c09",
     "C13": "c13",
+    "C14": "c14",
     "C15": "c15",
     "C17": "c17",
+    "C18": "c18",
 }
 
 
